@@ -113,6 +113,30 @@ def function_stub_render(tree):
     return limit, decorators
 
 
+def strip_pattern(tree):
+    """`pattern = r"<literal with one %s>" % "|".join(re.escape(m) for m in modules)` followed by
+    `s = re.sub(pattern, "", s)`, modules = sorted(set(self.strip_modules), key=len, reverse=True)"""
+    fn = _method(_class(tree, "FunctionStub"), "render")
+    lits = [n.value.left.value for n in ast.walk(fn)
+            if isinstance(n, ast.Assign) and len(n.targets) == 1 and isinstance(n.targets[0], ast.Name)
+            and n.targets[0].id == "pattern" and isinstance(n.value, ast.BinOp) and isinstance(n.value.op, ast.Mod)
+            and isinstance(n.value.left, ast.Constant) and isinstance(n.value.left.value, str)]
+    if len(lits) != 1 or lits[0].count("%s") != 1:
+        raise ExtractError("`pattern = <literal> % ...` not found exactly once in FunctionStub.render")
+    subs = [n for n in ast.walk(fn)
+            if isinstance(n, ast.Call) and isinstance(n.func, ast.Attribute) and n.func.attr == "sub"
+            and isinstance(n.func.value, ast.Name) and n.func.value.id == "re"]
+    if len(subs) != 1 or len(subs[0].args) != 3 or not (isinstance(subs[0].args[0], ast.Name) and subs[0].args[0].id == "pattern") \
+            or not (isinstance(subs[0].args[1], ast.Constant) and subs[0].args[1].value == ""):
+        raise ExtractError("`re.sub(pattern, \"\", s)` not found exactly once in FunctionStub.render")
+    order = [n for n in ast.walk(fn)
+             if isinstance(n, ast.Call) and isinstance(n.func, ast.Name) and n.func.id == "sorted"
+             and {k.arg: ast.unparse(k.value) for k in n.keywords} == {"key": "len", "reverse": "True"}]
+    if len(order) != 1:
+        raise ExtractError("`sorted(..., key=len, reverse=True)` of the modules not found in FunctionStub.render")
+    return lits[0]
+
+
 def kinds(tree):
     cls = _class(tree, "FunctionKind")
     out = []
@@ -186,6 +210,7 @@ def render() -> str:
         f"Definition stub_single_line_separator : string := {_cs(sep)}.",
         f"Definition stub_class_body_prefix : string := {_cs(class_prefix(tree))}.",
         f"Definition stub_part_separator_newlines : nat := {module_separator(tree)}.",
+        f"Definition stub_strip_pattern : string := {_cs(strip_pattern(tree))}.",
         "",
     ])
 
